@@ -1,9 +1,10 @@
 (* C15: the calls that do not change the tree (styles, animation steps, initial values, attribute
-   setters, set_region, put_region, remove_region, set_body, copy_to) preserve WF, outside the
-   recorded call shapes 1, 2, 3. *)
+   setters, document parameters, set_region, put_region, remove_region, set_body, copy_to) preserve WF
+   and the representation invariant. *)
 From Coq Require Import List Arith Bool Lia.
-From TT Require Import Base.HeapTypes Model.Heap Model.HeapTriggers Spec.ModelWF
-  Proofs.C15.HeapLemmas Proofs.C15.Links Proofs.C15.Tree Proofs.C15.Frames Proofs.C15.LinkOps Proofs.C15.Values Proofs.C15.Dfs.
+From TT Require Import Base.HeapTypes Model.Heap Model.HeapRep Spec.ModelWF
+  Proofs.C15.HeapLemmas Proofs.C15.Links Proofs.C15.Tree Proofs.C15.Frames Proofs.C15.LinkOps Proofs.C15.Values Proofs.C15.Dfs
+  Proofs.C15.Users.
 Import ListNotations.
 
 (* ---- an operation that leaves links and kinds alone: only four clauses remain to be shown ---- *)
@@ -239,6 +240,117 @@ Proof.
   destruct (negb _); [exact HW|]. destruct (is_some _); [exact HW|]. destruct (negb _); [exact HW|exact G].
 Qed.
 
+(* ---- sizes ---- *)
+Definition same_size (h h' : heap) : Prop := nnodes h' = nnodes h /\ ndocs h' = ndocs h.
+Lemma same_size_refl h : same_size h h. Proof. split; reflexivity. Qed.
+Lemma same_size_trans a b c : same_size a b -> same_size b c -> same_size a c.
+Proof. intros [A1 A2] [B1 B2]. split; congruence. Qed.
+Lemma size_updn h i f : same_size h (updn h i f). Proof. split; [apply nnodes_updn|reflexivity]. Qed.
+Lemma size_updd h i f : same_size h (updd h i f). Proof. split; [reflexivity|apply ndocs_updd]. Qed.
+Lemma size_link h s r : same_size h (link_region h s r).
+Proof. split; [apply link_region_nnodes|apply ndocs_docs, link_region_docs]. Qed.
+
+Ltac size_tac := repeat first [apply same_size_refl | apply size_updn | apply size_updd | apply size_link
+                              | match goal with |- context [match ?x with _ => _ end] => destruct x end].
+Lemma set_begin_size h s v : same_size h (heap_of (set_begin_m h s v)). Proof. unfold set_begin_m. size_tac. Qed.
+Lemma set_end_size h s v : same_size h (heap_of (set_end_m h s v)). Proof. unfold set_end_m. size_tac. Qed.
+Lemma set_lang_size h s v : same_size h (heap_of (set_lang_m h s v)). Proof. unfold set_lang_m. size_tac. Qed.
+Lemma set_space_size h s v : same_size h (heap_of (set_space_m h s v)). Proof. unfold set_space_m. size_tac. Qed.
+Lemma set_id_size h s v : same_size h (heap_of (set_id_m h s v)). Proof. unfold set_id_m. size_tac. Qed.
+Lemma set_text_size h s v : same_size h (heap_of (set_text_m h s v)). Proof. unfold set_text_m. size_tac. Qed.
+Lemma set_style_size h s p v : same_size h (heap_of (set_style_m h s p v)). Proof. unfold set_style_m. size_tac. Qed.
+Lemma set_region_size h s r : same_size h (heap_of (set_region_m h s r)).
+Proof. unfold set_region_m. destruct (kind_of h s); cbv zeta; size_tac. Qed.
+Lemma put_initial_size h d p v : same_size h (heap_of (put_initial h d p v)). Proof. unfold put_initial. size_tac. Qed.
+
+(* ---- the representation invariant under the calls above (none of them touches _region or _users) ---- *)
+Ltac rep_tac HR :=
+  repeat first [exact HR | apply rep_updd | (apply rep_updn; [reflexivity|reflexivity|reflexivity|reflexivity|])
+               | match goal with |- context [match ?x with _ => _ end] => destruct x end].
+Lemma set_begin_Rep h s v : Rep h -> Rep (heap_of (set_begin_m h s v)). Proof. intro HR. unfold set_begin_m. rep_tac HR. Qed.
+Lemma set_end_Rep h s v : Rep h -> Rep (heap_of (set_end_m h s v)). Proof. intro HR. unfold set_end_m. rep_tac HR. Qed.
+Lemma set_lang_Rep h s v : Rep h -> Rep (heap_of (set_lang_m h s v)). Proof. intro HR. unfold set_lang_m. rep_tac HR. Qed.
+Lemma set_space_Rep h s v : Rep h -> Rep (heap_of (set_space_m h s v)). Proof. intro HR. unfold set_space_m. rep_tac HR. Qed.
+Lemma set_text_Rep h s v : Rep h -> Rep (heap_of (set_text_m h s v)). Proof. intro HR. unfold set_text_m. rep_tac HR. Qed.
+Lemma set_style_Rep h s p v : Rep h -> Rep (heap_of (set_style_m h s p v)). Proof. intro HR. unfold set_style_m. rep_tac HR. Qed.
+Lemma add_anim_Rep h s p v : Rep h -> Rep (heap_of (add_anim_m h s p v)). Proof. intro HR. unfold add_anim_m. rep_tac HR. Qed.
+Lemma remove_anim_Rep h s p v : Rep h -> Rep (heap_of (remove_anim_m h s p v)). Proof. intro HR. unfold remove_anim_m. rep_tac HR. Qed.
+Lemma put_initial_Rep h d p v : Rep h -> Rep (heap_of (put_initial h d p v)). Proof. intro HR. unfold put_initial. rep_tac HR. Qed.
+Lemma remove_initial_Rep h d p : Rep h -> Rep (heap_of (remove_initial h d p)). Proof. intro HR. unfold remove_initial. rep_tac HR. Qed.
+Lemma set_body_Rep h d b : Rep h -> Rep (heap_of (set_body_m h d b)). Proof. intro HR. unfold set_body_m. rep_tac HR. Qed.
+Lemma set_active_Rep h d v : Rep h -> Rep (heap_of (set_active_m h d v)). Proof. intro HR. unfold set_active_m. rep_tac HR. Qed.
+Lemma set_dar_Rep h d v : Rep h -> Rep (heap_of (set_dar_m h d v)). Proof. intro HR. unfold set_dar_m. rep_tac HR. Qed.
+Lemma set_cell_Rep h d v : Rep h -> Rep (heap_of (set_cell_m h d v)). Proof. intro HR. unfold set_cell_m. rep_tac HR. Qed.
+Lemma set_px_Rep h d v : Rep h -> Rep (heap_of (set_px_m h d v)). Proof. intro HR. unfold set_px_m. rep_tac HR. Qed.
+Lemma set_dlang_Rep h d v : Rep h -> Rep (heap_of (set_dlang_m h d v)). Proof. intro HR. unfold set_dlang_m. rep_tac HR. Qed.
+(* set_id never changes the id of a Region *)
+Lemma set_id_Rep h s v : Rep h -> Rep (heap_of (set_id_m h s v)).
+Proof.
+  intros [U R]. unfold set_id_m, kind_of. 
+  assert (G : forall w, n_kind (nd h s) <> KRegion -> Rep (updn h s (set_id w))).
+  { intros w NK. split.
+    - apply (users_frame h); [apply nnodes_updn|apply same_updn; reflexivity|apply same_updn; reflexivity|exact U].
+    - intros i Hi. rewrite nnodes_updn in Hi. rewrite (proj_updn n_kind) by reflexivity. intro K.
+      destruct (Nat.eq_dec s i) as [->|N]; [congruence|]. rewrite nd_updn_other by assumption. apply R; assumption. }
+  destruct (n_kind (nd h s)) eqn:K; destruct v; simpl;
+    first [exact (conj U R) | destruct (onat_eqb _ _); exact (conj U R) | apply G; congruence].
+Qed.
+
+(* ---- more calls that update one node or one document record ---- *)
+Theorem set_text_WF h s v : WF h -> WF (heap_of (set_text_m h s v)).
+Proof.
+  intro HW. unfold set_text_m. destruct (kind_of h s); try exact HW. destruct v; [|exact HW]. attr_tac HW.
+Qed.
+Lemma list_remove_In x l l' y : list_remove x l = Some l' -> In y l' -> In y l.
+Proof.
+  revert l'. induction l as [|z t IH]; intros l' E H; simpl in E; [discriminate|].
+  destruct (pv_eqb z x); [injection E as <-; right; exact H|].
+  destruct (list_remove x t) as [t'|]; [|discriminate]. injection E as <-.
+  destruct H as [<-|H]; [left; reflexivity|right; eapply IH; eauto].
+Qed.
+Theorem remove_anim_WF h s p v : WF h -> s < nnodes h -> WF (heap_of (remove_anim_m h s p v)).
+Proof.
+  intros HW Hs. unfold remove_anim_m. destruct (list_remove (p, v) (n_anims (nd h s))) as [l|] eqn:E; [|exact HW]. simpl.
+  apply attr_update_WF; [exact HW|reflexivity|reflexivity|reflexivity|reflexivity|apply attr_regions_frame; reflexivity|].
+  intros (V1 & V2). split; [|exact V2]. intros i Hi. rewrite nnodes_updn in Hi.
+  rewrite (proj_updn n_styles) by reflexivity. split; [apply V1; exact Hi|].
+  destruct (Nat.eq_dec i s) as [->|N]; [|rewrite nd_updn_other by auto; apply V1; exact Hi].
+  rewrite nd_updn_same by assumption. simpl. intros q w H. apply (proj2 (V1 s Hs)). eapply list_remove_In; eauto.
+Qed.
+Theorem remove_initial_WF h d p : WF h -> d < ndocs h -> WF (heap_of (remove_initial h d p)).
+Proof.
+  intros HW Hd. unfold remove_initial. destruct p as [p|]; [|exact HW]. simpl.
+  pose proof HW as ((C & _) & _ & _ & _ & Rg & (V1 & V2)).
+  apply doc_update_WF; auto.
+  - apply (closed_frame h); auto; try reflexivity; try apply same_updd; try apply ndocs_updd; apply dsame_updd; reflexivity.
+  - apply (regions_frame h); auto; try reflexivity; try apply same_updd; try apply ndocs_updd; apply dsame_updd; reflexivity.
+  - split; [exact V1|]. intros d' Hd'. rewrite ndocs_updd in Hd'.
+    destruct (Nat.eq_dec d d') as [<-|N]; [|rewrite dc_updd_other by assumption; apply V2; exact Hd'].
+    rewrite dc_updd_same by assumption. simpl. intros q w H. apply (V2 d Hd). eapply In_pdict_del; eauto.
+Qed.
+(* a document parameter: nothing that WF reads changes *)
+Lemma doc_param_WF h d f : WF h -> (forall x, d_regions (f x) = d_regions x) -> (forall x, d_body (f x) = d_body x) ->
+  (forall x, d_initials (f x) = d_initials x) -> WF (updd h d f).
+Proof.
+  intros HW F1 F2 F3. pose proof HW as ((C & _) & _ & _ & _ & Rg & V).
+  apply doc_update_WF; auto.
+  - apply (closed_frame h); auto; try reflexivity; try apply same_updd; try apply ndocs_updd; apply dsame_updd; assumption.
+  - apply (regions_frame h); auto; try reflexivity; try apply same_updd; try apply ndocs_updd; apply dsame_updd; assumption.
+  - apply (values_frame h); auto; try reflexivity; try apply same_updd; try apply ndocs_updd; apply dsame_updd; assumption.
+Qed.
+Ltac param_tac HW := repeat first [exact HW | (apply doc_param_WF; [|reflexivity|reflexivity|reflexivity])
+                                  | match goal with |- context [match ?x with _ => _ end] => destruct x end].
+Theorem set_active_WF h d v : WF h -> WF (heap_of (set_active_m h d v)). Proof. intro HW. unfold set_active_m. param_tac HW. Qed.
+Theorem set_dar_WF h d v : WF h -> WF (heap_of (set_dar_m h d v)). Proof. intro HW. unfold set_dar_m. param_tac HW. Qed.
+Theorem set_cell_WF h d v : WF h -> WF (heap_of (set_cell_m h d v)). Proof. intro HW. unfold set_cell_m. param_tac HW. Qed.
+Theorem set_px_WF h d v : WF h -> WF (heap_of (set_px_m h d v)). Proof. intro HW. unfold set_px_m. param_tac HW. Qed.
+Theorem set_dlang_WF h d v : WF h -> WF (heap_of (set_dlang_m h d v)). Proof. intro HW. unfold set_dlang_m. param_tac HW. Qed.
+Lemma set_active_size h d v : same_size h (heap_of (set_active_m h d v)). Proof. unfold set_active_m. size_tac. Qed.
+Lemma set_dar_size h d v : same_size h (heap_of (set_dar_m h d v)). Proof. unfold set_dar_m. size_tac. Qed.
+Lemma set_cell_size h d v : same_size h (heap_of (set_cell_m h d v)). Proof. unfold set_cell_m. size_tac. Qed.
+Lemma set_px_size h d v : same_size h (heap_of (set_px_m h d v)). Proof. unfold set_px_m. size_tac. Qed.
+Lemma set_dlang_size h d v : same_size h (heap_of (set_dlang_m h d v)). Proof. unfold set_dlang_m. size_tac. Qed.
+
 (* ---- set_region ---- *)
 Lemma set_region_update_WF h s r : WF h -> s < nnodes h -> onode_ok h r = true ->
   (forall rr, r = Some rr -> region_capable (n_kind (nd h s)) = true /\
@@ -266,110 +378,350 @@ Proof.
   - apply (values_frame h); auto; try apply nnodes_updn; try (apply same_updn; reflexivity). apply dsame_updn.
 Qed.
 
-Theorem set_region_WF h s r : WF h -> s < nnodes h -> onode_ok h r = true ->
-  (forall rr, r = Some rr -> t_set_region_by_id h s rr = false) -> WF (heap_of (set_region_m h s r)).
+(* the users sets are not read by WF *)
+Lemma users_update_WF h j g : WF h -> WF (updn h j (fun n => set_users (g n) n)).
 Proof.
-  intros HW Hs Hr T. unfold set_region_m.
+  intro HW. apply attr_update_WF; [exact HW|reflexivity|reflexivity|reflexivity|reflexivity|apply attr_regions_frame; reflexivity|apply attr_values_frame; reflexivity].
+Qed.
+Lemma lr2_WF h s r : WF h -> WF (lr2 h s r).
+Proof.
+  intro HW. unfold lr2. assert (W1 : WF (lr1 h s)) by (unfold lr1; destruct (n_region (nd h s)); [apply users_update_WF; exact HW|exact HW]).
+  destruct r; [apply (users_update_WF (lr1 h s) n (fun m => uins s (n_users m))); exact W1|exact W1].
+Qed.
+Lemma lr2_other {X} (pi : node -> X) h s r : (forall v n, pi (set_users v n) = pi n) -> forall j, pi (nd (lr2 h s r) j) = pi (nd h j).
+Proof.
+  intros P1 j. unfold lr2. assert (E1 : pi (nd (lr1 h s) j) = pi (nd h j)).
+  { unfold lr1. destruct (n_region (nd h s)); [apply proj_updn; intro; apply P1|reflexivity]. }
+  destruct r; [rewrite (proj_updn pi) by (intro; apply P1)|]; exact E1.
+Qed.
+Lemma lr2_docs h s r : h_docs (lr2 h s r) = h_docs h.
+Proof. unfold lr2, lr1. destruct r, (n_region (nd h s)); reflexivity. Qed.
+
+Lemma link_region_WF h s r : WF h -> s < nnodes h -> onode_ok h r = true ->
+  (forall rr, r = Some rr -> region_capable (n_kind (nd h s)) = true /\
+     exists d id, n_doc (nd h s) = Some d /\ n_id (nd h rr) = Some id /\ lookup (d_regions (dc h d)) id = Some rr) ->
+  WF (link_region h s r).
+Proof.
+  intros HW Hs Hr HR. rewrite link_region_eq. apply set_region_update_WF.
+  - apply lr2_WF. exact HW.
+  - rewrite lr2_nnodes. exact Hs.
+  - destruct r as [rr|]; [|reflexivity]. unfold onode_ok, node_ok in *. rewrite lr2_nnodes. exact Hr.
+  - intros rr E. destruct (HR rr E) as [Cp (d & id & E1 & E2 & E3)].
+    rewrite (lr2_other n_kind), (lr2_other n_doc), (lr2_other n_id) by reflexivity. split; [exact Cp|].
+    exists d, id. unfold dc. rewrite lr2_docs. auto.
+Qed.
+Lemma region_in_range h s r0 : WF h -> s < nnodes h -> n_region (nd h s) = Some r0 -> r0 < nnodes h.
+Proof. intros (((C1 & _) & _) & _) Hs E. destruct (C1 s Hs) as (_ & _ & _ & _ & _ & R & _). rewrite E in R. exact R. Qed.
+Lemma link_region_Rep' h s r : WF h -> Rep h -> s < nnodes h -> onode_ok h r = true -> Rep (link_region h s r).
+Proof.
+  intros HW HR Hs Hr. apply link_region_Rep; auto.
+  - intros r0 E. eapply region_in_range; eauto.
+  - intros rr ->. simpl in Hr. apply Nat.ltb_lt. exact Hr.
+Qed.
+
+(* what an accepted set_region(r) has checked *)
+Lemma get_region_lookup h d id rr : onat_eqb (get_region h d id) (Some rr) = true ->
+  exists k, id = Some k /\ lookup (d_regions (dc h d)) k = Some rr.
+Proof.
+  intro E. apply onat_eqb_true in E. unfold get_region in E. destruct id as [k|]; [|discriminate].
+  exists k. split; [reflexivity|]. rewrite <- dict_get_lookup. exact E.
+Qed.
+
+Theorem set_region_WF h s r : WF h -> s < nnodes h -> onode_ok h r = true -> WF (heap_of (set_region_m h s r)).
+Proof.
+  intros HW Hs Hr. unfold set_region_m.
   assert (G : region_capable (kind_of h s) = true \/ r = None ->
     WF (heap_of match r with
-                | None => ROk (updn h s (set_region None))
+                | None => ROk (link_region h s None)
                 | Some rr => match n_doc (nd h s) with
                              | None => RErr h EValue
-                             | Some d => if has_region h d (n_id (nd h rr)) then ROk (updn h s (set_region r)) else RErr h EValue
+                             | Some d => if onat_eqb (get_region h d (n_id (nd h rr))) (Some rr) then ROk (link_region h s r) else RErr h EValue
                              end
                 end)).
   { intro Cap. destruct r as [rr|].
     - destruct (n_doc (nd h s)) as [d|] eqn:Ed; [|exact HW].
-      destruct (has_region h d (n_id (nd h rr))) eqn:Hh; [|exact HW]. simpl.
-      apply set_region_update_WF; auto. intros r0 [= <-].
+      destruct (onat_eqb (get_region h d (n_id (nd h rr))) (Some rr)) eqn:Hh; [|exact HW]. simpl.
+      apply link_region_WF; auto. intros r0 [= <-].
       destruct Cap as [Cap|]; [|discriminate]. split; [exact Cap|].
-      unfold has_region in Hh. destruct (n_id (nd h rr)) as [k|] eqn:Ek; [|discriminate].
-      apply dict_has_get in Hh. specialize (T rr eq_refl). unfold t_set_region_by_id in T. rewrite Ed, Ek in T.
-      exists d, k. repeat split; auto. rewrite <- dict_get_lookup.
-      destruct (dict_get Nat.eqb (d_regions (dc h d)) k) as [r0|] eqn:Eg; [|congruence].
-      unfold kind_of in *. destruct (n_kind (nd h s)); try discriminate Cap;
-        apply negb_false_iff in T; apply Nat.eqb_eq in T; congruence.
-    - simpl. apply set_region_update_WF; auto. intros rr [=]. }
+      destruct (get_region_lookup _ _ _ _ Hh) as (k & Ek & El). exists d, k. auto.
+    - simpl. apply link_region_WF; auto. intros rr [=]. }
   unfold kind_of in *. destruct (n_kind (nd h s)) eqn:K; try (apply G; left; reflexivity).
   - destruct r; simpl; [exact HW|]. apply G. right; reflexivity.
   - exact HW.
   - destruct r; exact HW.
 Qed.
-
-(* ---- put_region ---- *)
-Theorem put_region_WF h d r : WF h -> d < ndocs h -> r < nnodes h -> t_put_region_replace h d r = false ->
-  WF (heap_of (put_region h d r)).
+Theorem set_region_Rep h s r : WF h -> Rep h -> s < nnodes h -> onode_ok h r = true -> Rep (heap_of (set_region_m h s r)).
 Proof.
-  intros HW Hd Hr T. unfold put_region.
-  destruct (kind_eqb (kind_of h r) KRegion) eqn:K; [|exact HW]. simpl.
-  destruct (onat_eqb (n_doc (nd h r)) (Some d)) eqn:Dd; [|exact HW]. simpl.
-  destruct (n_id (nd h r)) as [k|] eqn:Ek; [|exact HW]. simpl.
-  apply kind_eqb_true in K. apply onat_eqb_true in Dd.
-  pose proof HW as ((C & _) & _ & _ & _ & (W1 & W2 & W3) & V).
-  set (f := fun x => set_regions (dict_set Nat.eqb (d_regions x) k r) x).
-  assert (REGS : forall d', d_regions (dc (updd h d f) d') = if Nat.eq_dec d d' then dict_set Nat.eqb (d_regions (dc h d)) k r else d_regions (dc h d')).
-  { intro d'. destruct (Nat.eq_dec d d') as [<-|N]; [rewrite dc_updd_same by assumption; reflexivity|rewrite dc_updd_other by assumption; reflexivity]. }
-  apply doc_update_WF; auto.
-  - destruct C as [C1 C2]. split; [intros i Hi; unfold dref_ok; rewrite ndocs_updd; apply (C1 i Hi)|].
-    intros d' Hd'. rewrite ndocs_updd in Hd'. rewrite REGS. rewrite (proj_updd d_body) by reflexivity.
-    split; [apply C2; exact Hd'|]. destruct (Nat.eq_dec d d') as [<-|N]; [|apply C2; exact Hd'].
-    intros id x Hin. destruct (In_dict_set _ _ _ _ Hin) as [H|[= _ ->]]; [eapply C2; eauto|exact Hr].
-  - split; [|split].
-    + intros i ri Hi E. change (i < nnodes h) in Hi. destruct (W1 i ri Hi E) as [Cp (di & idi & E1 & E2 & E3)].
-      split; [exact Cp|]. exists di, idi. repeat split; auto. rewrite REGS.
-      destruct (Nat.eq_dec d di) as [<-|N]; [|exact E3]. rewrite lookup_set.
-      destruct (Nat.eqb_spec idi k) as [->|N]; [|exact E3]. f_equal.
-      destruct (Nat.eq_dec ri r) as [|NE]; [auto|]. exfalso.
-      unfold t_put_region_replace in T. rewrite K, Dd, Ek in T.
-      rewrite kind_eqb_refl in T. rewrite (proj2 (onat_eqb_true _ _) eq_refl) in T. simpl in T.
-      rewrite dict_get_lookup, E3 in T. apply andb_false_iff in T. destruct T as [T|T].
-      * apply negb_false_iff in T. apply Nat.eqb_eq in T. congruence.
-      * assert (X : existsb (fun i0 => onat_eqb (n_region (nd h i0)) (Some ri) && onat_eqb (n_doc (nd h i0)) (Some d)) (nodes h) = true).
-        { apply existsb_exists. exists i. split; [apply in_seq; lia|].
-          apply andb_true_iff; split; apply onat_eqb_true; [exact E|exact E1]. }
-        congruence.
-    + intros d' id x Hd'. rewrite ndocs_updd in Hd'. rewrite REGS.
-      destruct (Nat.eq_dec d d') as [<-|N]; [|apply W2; exact Hd'].
-      rewrite lookup_set. destruct (Nat.eqb_spec id k) as [->|N]; [|apply W2; exact Hd].
-      intros [= <-]. auto.
-    + intros d' Hd'. rewrite ndocs_updd in Hd'. rewrite REGS.
-      destruct (Nat.eq_dec d d') as [<-|N]; [|apply W3; exact Hd']. apply keys_set. apply W3. exact Hd.
-  - apply (values_frame h); auto; try reflexivity; try apply same_updd; try apply ndocs_updd. apply dsame_updd. reflexivity.
+  intros HW HR Hs Hr. unfold set_region_m.
+  assert (L : forall r', r' = r \/ r' = None -> Rep (link_region h s r')).
+  { intros r' [->| ->]; apply link_region_Rep'; auto. }
+  destruct (kind_of h s); cbv zeta;
+    repeat match goal with |- context [match ?x with _ => _ end] => destruct x end; simpl; auto.
 Qed.
 
-(* ---- sizes ---- *)
-Definition same_size (h h' : heap) : Prop := nnodes h' = nnodes h /\ ndocs h' = ndocs h.
-Lemma same_size_refl h : same_size h h. Proof. split; reflexivity. Qed.
-Lemma same_size_trans a b c : same_size a b -> same_size b c -> same_size a c.
-Proof. intros [A1 A2] [B1 B2]. split; congruence. Qed.
-Lemma size_updn h i f : same_size h (updn h i f). Proof. split; [apply nnodes_updn|reflexivity]. Qed.
-Lemma size_updd h i f : same_size h (updd h i f). Proof. split; [reflexivity|apply ndocs_updd]. Qed.
+(* ---- `for e in list(region._users): if e.get_doc() is self: e.set_region(to)` ---- *)
+(* a node up to its region and its users *)
+Definition strip (n : node) : node := set_users [] (set_region None n).
+Lemma strip_proj {X} (pi : node -> X) : (forall v n, pi (set_users v n) = pi n) -> (forall v n, pi (set_region v n) = pi n) ->
+  forall a b, strip a = strip b -> pi a = pi b.
+Proof.
+  intros P1 P2 a b E. rewrite <- (P2 None a), <- (P1 [] (set_region None a)). fold (strip a). rewrite E.
+  unfold strip. rewrite P1, P2. reflexivity.
+Qed.
+Definition same_strip (h h' : heap) : Prop := forall j, strip (nd h' j) = strip (nd h j).
+Lemma same_strip_same {X} (pi : node -> X) h h' : (forall v n, pi (set_users v n) = pi n) -> (forall v n, pi (set_region v n) = pi n) ->
+  same_strip h h' -> same pi h h'.
+Proof. intros P1 P2 S j. apply strip_proj; auto. Qed.
+Lemma link_region_strip h s r : same_strip h (link_region h s r).
+Proof. intro j. apply (link_region_other strip); reflexivity. Qed.
 
-Ltac size_tac := repeat first [apply same_size_refl | apply size_updn | apply size_updd
-                              | match goal with |- context [match ?x with _ => _ end] => destruct x end].
-Lemma set_begin_size h s v : same_size h (heap_of (set_begin_m h s v)). Proof. unfold set_begin_m. size_tac. Qed.
-Lemma set_end_size h s v : same_size h (heap_of (set_end_m h s v)). Proof. unfold set_end_m. size_tac. Qed.
-Lemma set_lang_size h s v : same_size h (heap_of (set_lang_m h s v)). Proof. unfold set_lang_m. size_tac. Qed.
-Lemma set_space_size h s v : same_size h (heap_of (set_space_m h s v)). Proof. unfold set_space_m. size_tac. Qed.
-Lemma set_id_size h s v : same_size h (heap_of (set_id_m h s v)). Proof. unfold set_id_m. size_tac. Qed.
-Lemma set_style_size h s p v : same_size h (heap_of (set_style_m h s p v)). Proof. unfold set_style_m. size_tac. Qed.
-Lemma set_region_size h s r : same_size h (heap_of (set_region_m h s r)). Proof. unfold set_region_m. size_tac. Qed.
+Definition RefsOK (h : heap) : Prop := forall j r0, j < nnodes h -> n_region (nd h j) = Some r0 -> r0 < nnodes h.
+
+Lemma retarget_loop d to : forall us h,
+  (forall e, In e us -> e < nnodes h) ->
+  (forall e, In e us -> n_doc (nd h e) = Some d -> region_capable (n_kind (nd h e)) = true) ->
+  (forall rr, to = Some rr -> rr < nnodes h /\ onat_eqb (get_region h d (n_id (nd h rr))) (Some rr) = true) ->
+  RefsOK h -> UsersOK h ->
+  exists h', each (retarget d to) us h = ROk h' /\ nnodes h' = nnodes h /\ h_docs h' = h_docs h /\ same_strip h h' /\
+    (forall j, n_region (nd h' j) = if memb j us && onat_eqb (n_doc (nd h j)) (Some d) then to else n_region (nd h j)) /\
+    UsersOK h'.
+Proof.
+  induction us as [|e t IH]; intros h Hus Hcap Hto HR HU.
+  - exists h. simpl. refine (conj eq_refl (conj eq_refl (conj eq_refl (conj _ (conj _ HU))))); intro; reflexivity.
+  - assert (He : e < nnodes h) by (apply Hus; left; reflexivity).
+    (* the first iteration *)
+    assert (STEP : exists h1, retarget d to h e = ROk h1 /\ nnodes h1 = nnodes h /\ h_docs h1 = h_docs h /\ same_strip h h1 /\
+              (forall j, n_region (nd h1 j) = if Nat.eqb j e && onat_eqb (n_doc (nd h j)) (Some d) then to else n_region (nd h j)) /\
+              UsersOK h1).
+    { unfold retarget. destruct (onat_eqb (n_doc (nd h e)) (Some d)) eqn:Ed.
+      - assert (A : set_region_m h e to = ROk (link_region h e to)).
+        { apply onat_eqb_true in Ed. pose proof (Hcap e (or_introl eq_refl) Ed) as Cp.
+          unfold set_region_m, kind_of. destruct to as [rr|].
+          - destruct (Hto rr eq_refl) as [_ Hg]. rewrite Ed, Hg. destruct (n_kind (nd h e)); try discriminate Cp; reflexivity.
+          - destruct (n_kind (nd h e)); try discriminate Cp; reflexivity. }
+        exists (link_region h e to). split; [exact A|]. split; [apply link_region_nnodes|]. split; [apply link_region_docs|].
+        split; [apply link_region_strip|]. split.
+        + intro j. rewrite link_region_region by exact He. destruct (Nat.eq_dec j e) as [->|N].
+          * rewrite Nat.eqb_refl, Ed. reflexivity.
+          * apply Nat.eqb_neq in N. rewrite N. reflexivity.
+        + apply link_region_UsersOK; auto; [intros r0 E; apply (HR e r0 He E)|intros rr E; apply (Hto rr E)].
+      - exists h. refine (conj eq_refl (conj eq_refl (conj eq_refl (conj _ (conj _ HU))))); [intro; reflexivity|].
+        intro j. destruct (Nat.eqb_spec j e) as [->|N]; [rewrite Ed|]; reflexivity. }
+    destruct STEP as (h1 & E1 & N1 & D1 & S1 & R1 & U1).
+    assert (SD : same n_doc h h1) by (apply same_strip_same; [reflexivity|reflexivity|exact S1]).
+    assert (SK : same n_kind h h1) by (apply same_strip_same; [reflexivity|reflexivity|exact S1]).
+    assert (SI : same n_id h h1) by (apply same_strip_same; [reflexivity|reflexivity|exact S1]).
+    destruct (IH h1) as (h2 & E2 & N2 & D2 & S2 & R2 & U2).
+    + intros x Hx. rewrite N1. apply Hus. right; exact Hx.
+    + intros x Hx. rewrite SD, SK. apply Hcap. right; exact Hx.
+    + intros rr E. destruct (Hto rr E) as [A B]. split; [rewrite N1; exact A|].
+      unfold get_region, dc in *. rewrite D1, SI. exact B.
+    + intros j r0 Hj. rewrite N1 in *. rewrite R1.
+      destruct (Nat.eqb j e && onat_eqb (n_doc (nd h j)) (Some d)); [intro E; apply (Hto r0 E)|apply HR; exact Hj].
+    + exact U1.
+    + exists h2. simpl. rewrite E1. simpl. split; [exact E2|]. split; [congruence|]. split; [congruence|].
+      split; [intro j; rewrite S2; apply S1|]. split; [|exact U2].
+      intro j. rewrite R2, R1, SD. simpl.
+      destruct (Nat.eqb_spec e j) as [->|N]; simpl.
+      * rewrite Nat.eqb_refl. simpl. destruct (memb j t), (onat_eqb (n_doc (nd h j)) (Some d)); reflexivity.
+      * assert (Nat.eqb j e = false) as -> by (apply Nat.eqb_neq; auto). simpl. reflexivity.
+Qed.
+
+Lemma dc_docs h h' j : h_docs h' = h_docs h -> dc h' j = dc h j.
+Proof. intro E. unfold dc. rewrite E. reflexivity. Qed.
+Lemma lookup_In_regs (l : list (nat * nat)) k v : lookup l k = Some v -> In (k, v) l.
+Proof.
+  induction l as [|[a b] t IH]; simpl; [discriminate|]. destruct (Nat.eqb_spec k a) as [->|N].
+  - intros [= ->]. left; reflexivity.
+  - intro H. right. apply IH. exact H.
+Qed.
+Lemma lookup_in_range h d id x : lookup (d_regions (dc h d)) id = Some x -> d < ndocs h.
+Proof.
+  intro E. destruct (lt_dec d (ndocs h)); [assumption|]. exfalso. unfold dc in E.
+  rewrite nth_overflow in E by (unfold ndocs in *; lia). discriminate.
+Qed.
+
+(* a heap that differs from a well-formed one only in region references, users sets and the registry
+   of one document is well formed when its region references are registered *)
+Lemma regions_changed_WF h h2 d (regs : list (nat * nat)) :
+  WF h -> d < ndocs h -> nnodes h2 = nnodes h -> ndocs h2 = ndocs h -> same_strip h h2 ->
+  (forall d', d_body (dc h2 d') = d_body (dc h d') /\ d_initials (dc h2 d') = d_initials (dc h d') /\
+              d_regions (dc h2 d') = if Nat.eq_dec d d' then regs else d_regions (dc h d')) ->
+  (forall id x, In (id, x) regs -> x < nnodes h) -> NoDup (map fst regs) ->
+  (forall id x, lookup regs id = Some x -> n_kind (nd h x) = KRegion /\ n_id (nd h x) = Some id) ->
+  (forall i ri, i < nnodes h -> n_region (nd h2 i) = Some ri ->
+     ri < nnodes h /\ region_capable (n_kind (nd h i)) = true /\
+     exists di id, n_doc (nd h i) = Some di /\ n_id (nd h ri) = Some id /\ lookup (d_regions (dc h2 di)) id = Some ri) ->
+  WF h2.
+Proof.
+  intros HW Hd HN HD SS DOCS RANGE ND REGOK REFS.
+  pose proof HW as ((C & _) & _ & D & _ & (W1 & W2 & W3) & V).
+  assert (SL : same lk h h2) by (apply same_strip_same; [reflexivity|reflexivity|exact SS]).
+  assert (SK : same n_kind h h2) by (apply same_strip_same; [reflexivity|reflexivity|exact SS]).
+  assert (SD : same n_doc h h2) by (apply same_strip_same; [reflexivity|reflexivity|exact SS]).
+  assert (SI : same n_id h h2) by (apply same_strip_same; [reflexivity|reflexivity|exact SS]).
+  apply (WF_struct h); auto.
+  - destruct C as [C1 C2]. split.
+    + intros i Hi. rewrite HN in Hi. destruct (C1 i Hi) as (R1 & R2 & R3 & R4 & R5 & R6 & R7). unfold ref_ok, dref_ok in *.
+      rewrite (lk_parent h h2 SL), (lk_first h h2 SL), (lk_last h h2 SL), (lk_next h h2 SL), (lk_prev h h2 SL), SD, HN, HD.
+      repeat split; auto. destruct (n_region (nd h2 i)) as [ri|] eqn:E; [|exact I]. apply (REFS i ri Hi E).
+    + intros d' Hd'. rewrite HD in Hd'. destruct (DOCS d') as (B1 & _ & B3). unfold ref_ok. rewrite B1, B3, HN.
+      split; [apply C2; exact Hd'|]. destruct (Nat.eq_dec d d'); [exact RANGE|apply C2; exact Hd'].
+  - apply (doc_frame h); auto.
+  - split; [|split].
+    + intros i ri Hi E. rewrite HN in Hi. destruct (REFS i ri Hi E) as (_ & Cp & di & id & E1 & E2 & E3).
+      rewrite SK, SD. split; [exact Cp|]. exists di, id. rewrite SI. auto.
+    + intros d' id x Hd'. rewrite HD in Hd'. destruct (DOCS d') as (_ & _ & B3). rewrite B3, SK, SI.
+      destruct (Nat.eq_dec d d'); [apply REGOK|apply W2; exact Hd'].
+    + intros d' Hd'. rewrite HD in Hd'. destruct (DOCS d') as (_ & _ & B3). rewrite B3.
+      destruct (Nat.eq_dec d d'); [exact ND|apply W3; exact Hd'].
+  - destruct V as [V1 V2]. split.
+    + intros i Hi. rewrite HN in Hi.
+      rewrite (same_strip_same n_styles h h2 ltac:(reflexivity) ltac:(reflexivity) SS), (same_strip_same n_anims h h2 ltac:(reflexivity) ltac:(reflexivity) SS).
+      apply V1. exact Hi.
+    + intros d' Hd'. rewrite HD in Hd'. destruct (DOCS d') as (_ & B2 & _). rewrite B2. apply V2. exact Hd'.
+Qed.
+
+Lemma Rep_changed h h2 : nnodes h2 = nnodes h -> same_strip h h2 -> UsersOK h2 -> Rep h -> Rep h2.
+Proof.
+  intros HN SS U [_ R]. split; [exact U|].
+  apply (region_ids_frame h); auto; apply same_strip_same; try reflexivity; exact SS.
+Qed.
+
+(* ---- put_region ---- *)
+Theorem put_region_Inv h d r : WF h -> Rep h -> d < ndocs h -> r < nnodes h ->
+  WF (heap_of (put_region h d r)) /\ Rep (heap_of (put_region h d r)) /\
+  (forall h' e, put_region h d r = RErr h' e -> h' = h /\ e <> EFuel).
+Proof.
+  intros HW HR Hd Hr. unfold put_region.
+  destruct (kind_eqb (kind_of h r) KRegion) eqn:K; [|split; [exact HW|split; [exact HR|intros h' e [= <- <-]; split; [reflexivity|discriminate]]]]. simpl.
+  destruct (onat_eqb (n_doc (nd h r)) (Some d)) eqn:Dd; [|split; [exact HW|split; [exact HR|intros h' e [= <- <-]; split; [reflexivity|discriminate]]]]. simpl.
+  apply kind_eqb_true in K. apply onat_eqb_true in Dd. unfold kind_of in K.
+  destruct (n_id (nd h r)) as [k|] eqn:Ek; [|exfalso; exact (proj2 HR r Hr K Ek)].
+  pose proof HW as ((C & _) & _ & _ & _ & (W1 & W2 & W3) & V). pose proof HR as [HU HI].
+  set (f := fun x => set_regions (dict_set Nat.eqb (d_regions x) k r) x).
+  set (h1 := updd h d f).
+  assert (DOCS1 : forall d', d_body (dc h1 d') = d_body (dc h d') /\ d_initials (dc h1 d') = d_initials (dc h d') /\
+                  d_regions (dc h1 d') = if Nat.eq_dec d d' then dict_set Nat.eqb (d_regions (dc h d)) k r else d_regions (dc h d')).
+  { intro d'. unfold h1. rewrite (proj_updd d_body), (proj_updd d_initials) by reflexivity. split; [reflexivity|split; [reflexivity|]].
+    destruct (Nat.eq_dec d d') as [<-|N]; [rewrite dc_updd_same by assumption; reflexivity|rewrite dc_updd_other by assumption; reflexivity]. }
+  (* the loop (over no element when nothing is replaced) *)
+  set (us := match dict_get Nat.eqb (d_regions (dc h d)) k with
+             | Some r0 => if Nat.eqb r0 r then [] else n_users (nd h1 r0) | None => [] end).
+  assert (RUN : match dict_get Nat.eqb (d_regions (dc h d)) k with
+                | None => ROk h1
+                | Some r0 => if Nat.eqb r0 r then ROk h1 else each (retarget d (Some r)) (n_users (nd h1 r0)) h1
+                end = each (retarget d (Some r)) us h1).
+  { unfold us. destruct (dict_get Nat.eqb (d_regions (dc h d)) k) as [r0|]; [destruct (Nat.eqb r0 r)|]; reflexivity. }
+  rewrite RUN.
+  assert (USERS : forall e, In e us -> e < nnodes h /\ exists r0, n_region (nd h e) = Some r0 /\ lookup (d_regions (dc h d)) k = Some r0).
+  { unfold us. rewrite dict_get_lookup. destruct (lookup (d_regions (dc h d)) k) as [r0|] eqn:L; [|intros e []].
+    destruct (Nat.eqb r0 r); [intros e []|]. intros e He. change (In e (n_users (nd h r0))) in He.
+    assert (Hr0 : r0 < nnodes h) by (destruct C as [_ C2]; apply (proj2 (C2 d Hd) k r0); apply lookup_In_regs; exact L).
+    apply (HU r0 e Hr0) in He. destruct He as [A B]. split; [exact A|]. exists r0. auto. }
+  destruct (retarget_loop d (Some r) us h1) as (h2 & E2 & N2 & D2 & S2 & R2 & U2).
+  - intros e He. apply (USERS e He).
+  - intros e He _. destruct (USERS e He) as (A & r0 & B & _). apply (W1 e r0 A B).
+  - intros rr [= <-]. split; [exact Hr|]. apply onat_eqb_true. unfold get_region. change (n_id (nd h1 r)) with (n_id (nd h r)). rewrite Ek.
+    rewrite dict_get_lookup. destruct (DOCS1 d) as (_ & _ & B3). rewrite B3. destruct (Nat.eq_dec d d); [|congruence].
+    rewrite lookup_set, Nat.eqb_refl. reflexivity.
+  - intros j r0 Hj E. apply (region_in_range h j r0 HW Hj E).
+  - apply (users_frame h); auto; apply same_updd.
+  - rewrite E2. simpl. split; [|split; [|discriminate]].
+    + apply (regions_changed_WF h h2 d (dict_set Nat.eqb (d_regions (dc h d)) k r)); auto.
+      * unfold ndocs. rewrite D2. apply ndocs_updd.
+      * intro d'. rewrite (dc_docs h1 h2 d' D2). apply DOCS1.
+      * intros id x Hin. destruct (In_dict_set _ _ _ _ Hin) as [H|[= _ ->]]; [destruct C as [_ C2]; eapply (proj2 (C2 d Hd)); eauto|exact Hr].
+      * apply keys_set. apply W3. exact Hd.
+      * intros id x. rewrite lookup_set. destruct (Nat.eqb_spec id k) as [->|N]; [intros [= <-]; auto|apply W2; exact Hd].
+      * intros i ri Hi. rewrite R2. change (nd h1 i) with (nd h i).
+        destruct (memb i us && onat_eqb (n_doc (nd h i)) (Some d)) eqn:SI.
+        { intros [= <-]. apply andb_true_iff in SI. destruct SI as [M Di]. apply memb_In in M. apply onat_eqb_true in Di.
+          destruct (USERS i M) as (_ & r0 & B & _). destruct (W1 i r0 Hi B) as [Cp _].
+          split; [exact Hr|split; [exact Cp|]]. exists d, k. repeat split; auto.
+          rewrite (dc_docs h1 h2 d D2). destruct (DOCS1 d) as (_ & _ & B3). rewrite B3. destruct (Nat.eq_dec d d); [|congruence].
+          rewrite lookup_set, Nat.eqb_refl. reflexivity. }
+        intro E. destruct (W1 i ri Hi E) as [Cp (di & idi & E1 & E3 & E4)].
+        split; [eapply region_in_range; eauto|split; [exact Cp|]]. exists di, idi. repeat split; auto.
+        rewrite (dc_docs h1 h2 di D2). destruct (DOCS1 di) as (_ & _ & B3). rewrite B3.
+        destruct (Nat.eq_dec d di) as [<-|N]; [|exact E4]. rewrite lookup_set.
+        destruct (Nat.eqb_spec idi k) as [->|N]; [|exact E4]. f_equal.
+        (* i references the region registered under k in d: either that is r, or i was redirected *)
+        destruct (Nat.eq_dec ri r) as [|NE]; [auto|]. exfalso.
+        assert (M : memb i us = true).
+        { apply memb_In. unfold us. rewrite dict_get_lookup, E4. destruct (Nat.eqb_spec ri r); [contradiction|].
+          change (In i (n_users (nd h ri))). apply (HU ri i (region_in_range h i ri HW Hi E)). auto. }
+        rewrite M, (proj2 (onat_eqb_true _ _) E1) in SI. discriminate.
+    + apply (Rep_changed h); auto.
+Qed.
+
+(* ---- remove_region ---- *)
+Theorem remove_region_Inv h d id : WF h -> Rep h -> d < ndocs h ->
+  WF (heap_of (remove_region h d id)) /\ Rep (heap_of (remove_region h d id)) /\
+  (forall h' e, remove_region h d id = RErr h' e -> h' = h /\ e <> EFuel).
+Proof.
+  intros HW HR Hd. unfold remove_region.
+  destruct (dict_get Nat.eqb (d_regions (dc h d)) id) as [r0|] eqn:G; [|split; [exact HW|split; [exact HR|discriminate]]].
+  rewrite dict_get_lookup in G.
+  pose proof HW as ((C & _) & _ & _ & _ & (W1 & W2 & W3) & V). pose proof HR as [HU HI].
+  assert (Hr0 : r0 < nnodes h) by (destruct C as [_ C2]; apply (proj2 (C2 d Hd) id r0); apply lookup_In_regs; exact G).
+  assert (USERS : forall e, In e (n_users (nd h r0)) -> e < nnodes h /\ n_region (nd h e) = Some r0) by (intros e He; apply (HU r0 e Hr0); exact He).
+  destruct (retarget_loop d None (n_users (nd h r0)) h) as (h1 & E1 & N1 & D1 & S1 & R1 & U1).
+  - intros e He. apply (USERS e He).
+  - intros e He _. destruct (USERS e He) as (A & B). apply (W1 e r0 A B).
+  - intros rr [=].
+  - intros j r1 Hj E. eapply region_in_range; eauto.
+  - exact HU.
+  - rewrite E1. simpl.
+    set (f := fun x => set_regions (dict_del Nat.eqb (d_regions x) id) x). set (h2 := updd h1 d f).
+    assert (Hd1 : d < ndocs h1) by (unfold ndocs; rewrite D1; exact Hd).
+    assert (DOCS2 : forall d', d_body (dc h2 d') = d_body (dc h d') /\ d_initials (dc h2 d') = d_initials (dc h d') /\
+                    d_regions (dc h2 d') = if Nat.eq_dec d d' then dict_del Nat.eqb (d_regions (dc h d)) id else d_regions (dc h d')).
+    { intro d'. unfold h2. rewrite (proj_updd d_body), (proj_updd d_initials) by reflexivity. rewrite !(dc_docs h h1 d' D1).
+      split; [reflexivity|split; [reflexivity|]].
+      destruct (Nat.eq_dec d d') as [<-|N]; [rewrite dc_updd_same by assumption; simpl; rewrite (dc_docs h h1 d D1); reflexivity
+                                            |rewrite dc_updd_other by assumption; apply f_equal, dc_docs; exact D1]. }
+    split; [|split; [|discriminate]].
+    + apply (regions_changed_WF h h2 d (dict_del Nat.eqb (d_regions (dc h d)) id)); auto.
+      * unfold h2. rewrite ndocs_updd. unfold ndocs. rewrite D1. reflexivity.
+      * intros k x Hin. destruct C as [_ C2]. apply (proj2 (C2 d Hd) k x). clear - Hin.
+        induction (d_regions (dc h d)) as [|[a b] t IH]; simpl in *; [exact Hin|].
+        destruct (Nat.eqb id a); simpl in *; [right; exact Hin|]. destruct Hin as [H|H]; [left; exact H|right; auto].
+      * apply keys_del. apply W3. exact Hd.
+      * intros k x. rewrite lookup_del by (apply W3; exact Hd). destruct (Nat.eqb k id); [discriminate|]. apply W2. exact Hd.
+      * intros i ri Hi. change (nd h2 i) with (nd h1 i). rewrite R1.
+        destruct (memb i (n_users (nd h r0)) && onat_eqb (n_doc (nd h i)) (Some d)) eqn:SI; [discriminate|].
+        intro E. destruct (W1 i ri Hi E) as [Cp (di & idi & E2 & E3 & E4)].
+        split; [eapply region_in_range; eauto|split; [exact Cp|]]. exists di, idi. repeat split; auto.
+        destruct (DOCS2 di) as (_ & _ & B3). rewrite B3.
+        destruct (Nat.eq_dec d di) as [<-|N]; [|exact E4]. rewrite lookup_del by (apply W3; exact Hd).
+        destruct (Nat.eqb_spec idi id) as [->|N]; [|exact E4]. exfalso.
+        assert (ri = r0) by congruence. subst ri.
+        assert (M : memb i (n_users (nd h r0)) = true) by (apply memb_In; apply (HU r0 i Hr0); auto).
+        rewrite M, (proj2 (onat_eqb_true _ _) E2) in SI. discriminate.
+    + apply rep_updd. apply (Rep_changed h); auto.
+Qed.
 
 (* ---- copy_to ---- *)
-Definition WFn (n : nat) (h : heap) : Prop := WF h /\ nnodes h = n.
-Lemma copy_styles_WFn n s dst h : dst < n -> WFn n h -> WFn n (heap_of (copy_styles s dst h)).
+Definition Invn (n m : nat) (h : heap) : Prop := WF h /\ Rep h /\ nnodes h = n /\ ndocs h = m.
+Lemma Invn_bind n m r (f : heap -> res) :
+  Invn n m (heap_of r) -> (forall h1, Invn n m h1 -> Invn n m (heap_of (f h1))) -> Invn n m (heap_of (r >>= f)).
+Proof. intros H1 H2. apply heap_of_bind_inv; [exact H1|]. intros h1 _ P. apply H2. exact P. Qed.
+Lemma Invn_step n m h h' : Invn n m h -> WF h' -> Rep h' -> same_size h h' -> Invn n m h'.
+Proof. intros (_ & _ & N & M) W R [S1 S2]. refine (conj W (conj R (conj _ _))); congruence. Qed.
+
+Lemma copy_styles_Invn n m s dst h : dst < n -> Invn n m h -> Invn n m (heap_of (copy_styles s dst h)).
 Proof.
   intros Hd. unfold copy_styles. generalize (n_styles (nd h s)) as l. intro l. revert h.
   induction l as [|[p v] t IH]; intros h P; [exact P|].
-  apply heap_of_bind_inv.
-  - destruct P as [W N]. split; [apply set_style_WF; [exact W|rewrite N; exact Hd]|].
-    destruct (set_style_size h dst (PValid p) (Some v)) as [E _]. congruence.
-  - intros h1 _ P1. apply IH. exact P1.
+  apply Invn_bind; [|intros h1 P1; apply IH; exact P1].
+  pose proof P as (W & R & N & M).
+  apply (Invn_step n m h); [exact P|apply set_style_WF; [exact W|rewrite N; exact Hd]|apply set_style_Rep; exact R|apply set_style_size].
 Qed.
-Lemma copy_anims_WFn n s dst h : dst < n -> s < n -> WFn n h -> WFn n (heap_of (copy_anims s dst h)).
+Lemma copy_anims_Invn n m s dst h : dst < n -> s < n -> Invn n m h -> Invn n m (heap_of (copy_anims s dst h)).
 Proof.
-  intros Hd Hs [W N]. unfold copy_anims. destruct (_ && _); [split; assumption|]. simpl.
-  split; [|rewrite nnodes_updn; exact N].
+  intros Hd Hs P. pose proof P as (W & R & N & M). unfold copy_anims. destruct (_ && _); [exact P|]. simpl.
+  apply (Invn_step n m h); [exact P| |apply rep_updn; [reflexivity|reflexivity|reflexivity|reflexivity|exact R]|apply size_updn].
   apply attr_update_WF; [exact W|reflexivity|reflexivity|reflexivity|reflexivity|apply attr_regions_frame; reflexivity|].
   intros (V1 & V2). split; [|exact V2]. intros i Hi. rewrite nnodes_updn in Hi.
   rewrite (proj_updn n_styles) by reflexivity. split; [apply V1; exact Hi|].
@@ -379,164 +731,51 @@ Proof.
   - apply (proj2 (V1 s ltac:(rewrite N; exact Hs))). exact H.
 Qed.
 
-Theorem copy_to_WF h s dst : WF h -> s < nnodes h -> dst < nnodes h -> WF (heap_of (copy_to h s dst)).
+Theorem copy_to_Inv h s dst : WF h -> Rep h -> s < nnodes h -> dst < nnodes h ->
+  WF (heap_of (copy_to h s dst)) /\ Rep (heap_of (copy_to h s dst)).
 Proof.
-  intros HW Hs Hd.
-  assert (B : forall n r (f : heap -> res), WFn n (heap_of r) -> (forall h1, WFn n h1 -> WFn n (heap_of (f h1))) -> WFn n (heap_of (r >>= f))).
-  { intros n r f H1 H2. apply heap_of_bind_inv; [exact H1|]. intros h1 _ P. apply H2. exact P. }
-  assert (Sb : forall n h v, dst < n -> WFn n h -> WFn n (heap_of (set_begin_m h dst v))).
-  { intros n h0 v D [W N]. split; [apply set_begin_WF; exact W|]. destruct (set_begin_size h0 dst v). congruence. }
-  assert (Se : forall n h v, dst < n -> WFn n h -> WFn n (heap_of (set_end_m h dst v))).
-  { intros n h0 v D [W N]. split; [apply set_end_WF; exact W|]. destruct (set_end_size h0 dst v). congruence. }
-  assert (Sl : forall n h v, dst < n -> WFn n h -> WFn n (heap_of (set_lang_m h dst v))).
-  { intros n h0 v D [W N]. split; [apply set_lang_WF; exact W|]. destruct (set_lang_size h0 dst v). congruence. }
-  assert (Ss : forall n h v, dst < n -> WFn n h -> WFn n (heap_of (set_space_m h dst v))).
-  { intros n h0 v D [W N]. split; [apply set_space_WF; exact W|]. destruct (set_space_size h0 dst v). congruence. }
-  assert (Si : forall n h v, dst < n -> WFn n h -> WFn n (heap_of (set_id_m h dst v))).
-  { intros n h0 v D [W N]. split; [apply set_id_WF; [exact W|rewrite N; exact D]|]. destruct (set_id_size h0 dst v). congruence. }
-  assert (P0 : WFn (nnodes h) h) by (split; [exact HW|reflexivity]).
-  unfold copy_to. destruct (kind_of h s).
-  all: try (destruct (Nat.eqb s dst); [exact HW|]).
-  all: try (destruct (kind_eqb _ _); exact HW).
-  all: refine (proj1 (_ : WFn (nnodes h) _)).
-  all: repeat (apply B; [|intros]); try (apply copy_anims_WFn; assumption); try (apply copy_styles_WFn; assumption);
-       first [apply Sb | apply Se | apply Sl | apply Ss | apply Si]; assumption.
+  intros HW HR Hs Hd.
+  assert (ST : forall n m (op : heap -> res), (forall h0, WF h0 -> nnodes h0 = n -> WF (heap_of (op h0))) ->
+            (forall h0, Rep h0 -> Rep (heap_of (op h0))) -> (forall h0, same_size h0 (heap_of (op h0))) ->
+            forall h0, Invn n m h0 -> Invn n m (heap_of (op h0))).
+  { intros n m op A B C h0 P. pose proof P as (W & R & N & M). apply (Invn_step n m h0); auto. }
+  assert (P0 : Invn (nnodes h) (ndocs h) h) by exact (conj HW (conj HR (conj eq_refl eq_refl))).
+  assert (G : Invn (nnodes h) (ndocs h) (heap_of (copy_to h s dst))).
+  { unfold copy_to. destruct (kind_of h s).
+    all: try (destruct (Nat.eqb s dst); [exact P0|]).
+    all: repeat (apply Invn_bind; [|intros]); try (apply copy_anims_Invn; assumption); try (apply copy_styles_Invn; assumption).
+    all: first [ apply (ST _ _ (fun h0 => set_begin_m h0 dst _)); [intros; apply set_begin_WF; assumption|intros; apply set_begin_Rep; assumption|intros; apply set_begin_size|assumption]
+               | apply (ST _ _ (fun h0 => set_end_m h0 dst _)); [intros; apply set_end_WF; assumption|intros; apply set_end_Rep; assumption|intros; apply set_end_size|assumption]
+               | apply (ST _ _ (fun h0 => set_lang_m h0 dst _)); [intros; apply set_lang_WF; assumption|intros; apply set_lang_Rep; assumption|intros; apply set_lang_size|assumption]
+               | apply (ST _ _ (fun h0 => set_space_m h0 dst _)); [intros; apply set_space_WF; assumption|intros; apply set_space_Rep; assumption|intros; apply set_space_size|assumption]
+               | apply (ST _ _ (fun h0 => set_id_m h0 dst _)); [intros hh WW NN; apply set_id_WF; [assumption|rewrite NN; assumption]|intros; apply set_id_Rep; assumption|intros; apply set_id_size|assumption]
+               | apply (ST _ _ (fun h0 => set_text_m h0 dst _)); [intros; apply set_text_WF; assumption|intros; apply set_text_Rep; assumption|intros; apply set_text_size|assumption] ]. }
+  destruct G as (A & B & _). split; assumption.
 Qed.
 
-(* ---- remove_region ---- *)
-Definition clear_if (id : nat) (h' : heap) (e : nat) : res :=
-  match n_region (nd h' e) with
-  | None => ROk h'
-  | Some r => if onat_eqb (n_id (nd h' r)) (Some id) then set_region_m h' e None else ROk h'
-  end.
-
-(* what one clearing step keeps *)
-Definition keeps (h h' : heap) : Prop :=
-  same_size h h' /\ same n_id h h' /\ same n_doc h h' /\ same n_kind h h' /\ h_docs h' = h_docs h /\
-  (forall j, n_region (nd h' j) = n_region (nd h j) \/ n_region (nd h' j) = None).
-Lemma keeps_refl h : keeps h h.
-Proof. repeat split; auto; intro; auto. Qed.
-Lemma keeps_trans a b c : keeps a b -> keeps b c -> keeps a c.
+(* ---- ContentDocument.copy_to ---- *)
+Theorem doc_copy_to_Inv h d dst : WF h -> Rep h -> d < ndocs h -> dst < ndocs h ->
+  WF (heap_of (doc_copy_to h d dst)) /\ Rep (heap_of (doc_copy_to h d dst)).
 Proof.
-  intros (A1 & A2 & A3 & A4 & A5 & A6) (B1 & B2 & B3 & B4 & B5 & B6).
-  refine (conj (same_size_trans _ _ _ A1 B1) (conj (same_trans _ _ _ _ A2 B2) (conj (same_trans _ _ _ _ A3 B3)
-         (conj (same_trans _ _ _ _ A4 B4) (conj _ _))))); [congruence|].
-  intro j. destruct (B6 j) as [E|E]; [rewrite E; apply A6|right; exact E].
-Qed.
-Lemma set_region_none_keeps h e : keeps h (heap_of (set_region_m h e None)).
-Proof.
-  unfold set_region_m.
-  assert (G : keeps h (updn h e (set_region None))).
-  { refine (conj (size_updn _ _ _) (conj _ (conj _ (conj _ (conj eq_refl _))))); try (apply same_updn; reflexivity).
-    intro j. destruct (Nat.eq_dec e j) as [<-|N]; [|left; rewrite nd_updn_other by assumption; reflexivity].
-    destruct (lt_dec e (nnodes h)); [right; rewrite nd_updn_same by assumption; reflexivity|left; rewrite updn_out by lia; reflexivity]. }
-  destruct (kind_of h e); simpl; try exact G; apply keeps_refl.
-Qed.
-Lemma clear_if_keeps id h e : keeps h (heap_of (clear_if id h e)).
-Proof.
-  unfold clear_if. destruct (n_region (nd h e)); [|apply keeps_refl].
-  destruct (onat_eqb _ _); [apply set_region_none_keeps|apply keeps_refl].
-Qed.
-Lemma clear_if_WF id h e : WF h -> e < nnodes h -> WF (heap_of (clear_if id h e)).
-Proof.
-  intros HW He. unfold clear_if. destruct (n_region (nd h e)); [|exact HW].
-  destruct (onat_eqb _ _); [|exact HW]. apply set_region_WF; auto. intros rr [=].
-Qed.
-(* after an accepted clearing step the element no longer references a region with that id *)
-Lemma clear_if_cleared id h e h' : WF h -> e < nnodes h -> clear_if id h e = ROk h' ->
-  forall r, n_region (nd h' e) = Some r -> n_id (nd h r) <> Some id.
-Proof.
-  intros HW He. unfold clear_if. destruct (n_region (nd h e)) as [r0|] eqn:E.
-  - destruct (onat_eqb (n_id (nd h r0)) (Some id)) eqn:I.
-    + pose proof HW as (_ & _ & _ & _ & (W1 & _) & _). destruct (W1 e r0 He E) as [Cp _].
-      unfold set_region_m, kind_of. destruct (n_kind (nd h e)); try discriminate Cp; simpl; intros [= <-] r;
-        rewrite nd_updn_same by assumption; simpl; discriminate.
-    + intros [= <-] r. rewrite E. intros [= <-]. apply onat_eqb_false in I. exact I.
-  - intros [= <-] r. rewrite E. discriminate.
-Qed.
-
-Lemma clear_loop id : forall l h h1, WF h -> (forall e, In e l -> e < nnodes h) ->
-  each (clear_if id) l h = ROk h1 ->
-  WF h1 /\ keeps h h1 /\ forall e, In e l -> forall r, n_region (nd h1 e) = Some r -> n_id (nd h r) <> Some id.
-Proof.
-  induction l as [|x t IH]; intros h h1 HW Hl E; simpl in E.
-  - injection E as <-. split; [exact HW|split; [apply keeps_refl|intros e []]].
-  - apply bind_ok in E. destruct E as (hx & Ex & E).
-    assert (Hx : x < nnodes h) by (apply Hl; left; reflexivity).
-    pose proof (clear_if_WF id h x HW Hx) as Wx. pose proof (clear_if_keeps id h x) as Kx. rewrite Ex in Wx, Kx. simpl in Wx, Kx.
-    assert (Hl' : forall e, In e t -> e < nnodes hx).
-    { intros e He. destruct Kx as ((N & _) & _). rewrite N. apply Hl. right; exact He. }
-    destruct (IH hx h1 Wx Hl' E) as (W1 & K1 & C1).
-    split; [exact W1|split; [eapply keeps_trans; eauto|]].
-    intros e [<-|He] r Er.
-    + destruct K1 as (_ & _ & _ & _ & _ & R1). destruct (R1 x) as [R|R]; [|congruence].
-      rewrite Er in R. symmetry in R. apply (clear_if_cleared id h x hx HW Hx Ex r R).
-    + destruct Kx as (_ & I & _). rewrite <- I. apply (C1 e He r Er).
-Qed.
-
-Theorem remove_region_WF h d id : WF h -> d < ndocs h -> t_remove_region_outside_body h d id = false ->
-  WF (heap_of (remove_region h d id)).
-Proof.
-  intros HW Hd T. unfold remove_region.
-  destruct (dict_get Nat.eqb (d_regions (dc h d)) id) as [r0|] eqn:G; [|exact HW].
-  rewrite dict_get_lookup in G.
-  set (l := match d_body (dc h d) with None => [] | Some b => match dfs (S (nnodes h)) h b with Some l => l | None => [] end end).
-  (* the loop, as `each clear_if` over the elements under the body *)
-  assert (LOOP : forall l0, (forall e, In e l0 -> e < nnodes h) -> l0 = l ->
-     WF (heap_of (each (clear_if id) l0 h >>= fun h1 => ROk (updd h1 d (fun x => set_regions (dict_del Nat.eqb (d_regions x) id) x))))).
-  { intros l0 Hl0 El. destruct (each (clear_if id) l0 h) as [h1|h1 e] eqn:E.
-    - simpl. destruct (clear_loop id l0 h h1 HW Hl0 E) as (W1 & (SZ & KI & KD & KK & KDocs & KR) & CL).
-      destruct SZ as [N1 D1].
-      assert (Hd1 : d < ndocs h1) by (rewrite D1; exact Hd).
-      pose proof W1 as ((C & _) & _ & _ & _ & (R1 & R2 & R3) & V).
-      set (f := fun x => set_regions (dict_del Nat.eqb (d_regions x) id) x).
-      assert (REGS : forall d', d_regions (dc (updd h1 d f) d') = if Nat.eq_dec d d' then dict_del Nat.eqb (d_regions (dc h1 d)) id else d_regions (dc h1 d')).
-      { intro d'. destruct (Nat.eq_dec d d') as [<-|N]; [rewrite dc_updd_same by assumption; reflexivity|rewrite dc_updd_other by assumption; reflexivity]. }
-      assert (DC : forall d', dc h1 d' = dc h d') by (intro; unfold dc; rewrite KDocs; reflexivity).
-      apply doc_update_WF; auto.
-      + destruct C as [C1 C2]. split; [intros i Hi; unfold dref_ok; rewrite ndocs_updd; apply (C1 i Hi)|].
-        intros d' Hd'. rewrite ndocs_updd in Hd'. rewrite REGS. rewrite (proj_updd d_body) by reflexivity.
-        split; [apply C2; exact Hd'|]. destruct (Nat.eq_dec d d') as [<-|N]; [|apply C2; exact Hd'].
-        intros k x Hin. apply (proj2 (C2 d Hd1) k x). clear - Hin.
-        induction (d_regions (dc h1 d)) as [|[a b] t IH]; simpl in *; [exact Hin|].
-        destruct (Nat.eqb id a); simpl in *; [right; exact Hin|]. destruct Hin as [H|H]; [left; exact H|right; auto].
-      + split; [|split].
-        * intros i ri Hi E1. change (i < nnodes h1) in Hi. change (n_region (nd h1 i) = Some ri) in E1.
-          destruct (R1 i ri Hi E1) as [Cp (di & idi & E2 & E3 & E4)].
-          split; [exact Cp|]. exists di, idi. repeat split; auto. rewrite REGS.
-          destruct (Nat.eq_dec d di) as [<-|N]; [|exact E4]. rewrite lookup_del by (apply R3; exact Hd1).
-          destruct (Nat.eqb_spec idi id) as [->|N]; [|exact E4]. exfalso.
-          (* i references the removed region: it was under the body, hence cleared *)
-          rewrite DC in E4. assert (ri = r0) by congruence. subst ri.
-          assert (Rh : n_region (nd h i) = Some r0) by (destruct (KR i) as [R|R]; congruence).
-          assert (Dh : n_doc (nd h i) = Some d) by (rewrite <- KD; exact E2).
-          assert (Il : In i l0).
-          { rewrite El. unfold t_remove_region_outside_body in T. rewrite dict_get_lookup, G in T. fold l in T.
-            destruct (in_dec Nat.eq_dec i l) as [|NI]; [assumption|]. exfalso.
-            assert (X : existsb (fun i0 => onat_eqb (n_region (nd h i0)) (Some r0) && onat_eqb (n_doc (nd h i0)) (Some d) && negb (memb i0 l)) (nodes h) = true).
-            { apply existsb_exists. exists i. split; [apply in_seq; lia|].
-              rewrite (proj2 (onat_eqb_true _ _) Rh), (proj2 (onat_eqb_true _ _) Dh). simpl.
-              apply negb_true_iff. destruct (memb i l) eqn:M; [|reflexivity]. apply existsb_eqb_In in M. contradiction. }
-            congruence. }
-          apply (CL i Il r0 E1). rewrite <- KI. exact E3.
-        * intros d' k x Hd'. rewrite ndocs_updd in Hd'. rewrite REGS.
-          destruct (Nat.eq_dec d d') as [<-|N]; [|apply R2; exact Hd'].
-          rewrite lookup_del by (apply R3; exact Hd1). destruct (Nat.eqb k id); [discriminate|]. apply R2. exact Hd1.
-        * intros d' Hd'. rewrite ndocs_updd in Hd'. rewrite REGS.
-          destruct (Nat.eq_dec d d') as [<-|N]; [|apply R3; exact Hd']. apply keys_del. apply R3. exact Hd1.
-      + apply (values_frame h1); auto; try reflexivity; try apply same_updd; try apply ndocs_updd. apply dsame_updd. reflexivity.
-    - simpl.
-      assert (ST : forall h0 x, In x l0 -> WF h0 /\ nnodes h0 = nnodes h -> WF (heap_of (clear_if id h0 x)) /\ nnodes (heap_of (clear_if id h0 x)) = nnodes h).
-      { intros h0 x Hx (W0 & N0). split; [apply clear_if_WF; [exact W0|rewrite N0; apply Hl0; exact Hx]|].
-        destruct (clear_if_keeps id h0 x) as ((N & _) & _). congruence. }
-      pose proof (each_inv (fun h0 => WF h0 /\ nnodes h0 = nnodes h) (clear_if id) l0 ST h (conj HW eq_refl)) as P.
-      rewrite E in P. exact (proj1 P). }
-  destruct (d_body (dc h d)) as [b|] eqn:B.
-  - destruct (dfs (S (nnodes h)) h b) as [l'|] eqn:D; [|exact HW].
-    change (WF (heap_of (each (clear_if id) l' h >>= fun h1 => ROk (updd h1 d (fun x => set_regions (dict_del Nat.eqb (d_regions x) id) x))))).
-    apply LOOP; [|unfold l; reflexivity].
-    pose proof HW as ((C & K & _) & _). destruct C as [_ C2]. destruct (C2 d Hd) as [Rb _]. rewrite B in Rb.
-    intros e He. eapply (dfs_range h K); [exact Rb|exact D|exact He].
-  - change (WF (heap_of (each (clear_if id) [] h >>= fun h1 => ROk (updd h1 d (fun x => set_regions (dict_del Nat.eqb (d_regions x) id) x))))).
-    apply LOOP; [intros e []|reflexivity].
+  intros HW HR Hd Hdst.
+  assert (ST : forall n m (op : heap -> res), (forall h0, WF h0 -> ndocs h0 = m -> WF (heap_of (op h0))) ->
+            (forall h0, Rep h0 -> Rep (heap_of (op h0))) -> (forall h0, same_size h0 (heap_of (op h0))) ->
+            forall h0, Invn n m h0 -> Invn n m (heap_of (op h0))).
+  { intros n m op A B C h0 P. pose proof P as (W & R & N & M). apply (Invn_step n m h0); auto. }
+  assert (P0 : Invn (nnodes h) (ndocs h) h) by exact (conj HW (conj HR (conj eq_refl eq_refl))).
+  assert (G : Invn (nnodes h) (ndocs h) (heap_of (doc_copy_to h d dst))).
+  { unfold doc_copy_to. apply Invn_bind.
+    - destruct (Nat.eqb d dst); [exact P0|].
+      repeat (apply Invn_bind; [|intros]).
+      all: first [ apply (ST _ _ (fun h0 => set_active_m h0 dst _)); [intros; apply set_active_WF; assumption|intros; apply set_active_Rep; assumption|intros; apply set_active_size|assumption]
+                 | apply (ST _ _ (fun h0 => set_cell_m h0 dst _)); [intros; apply set_cell_WF; assumption|intros; apply set_cell_Rep; assumption|intros; apply set_cell_size|assumption]
+                 | apply (ST _ _ (fun h0 => set_dar_m h0 dst _)); [intros; apply set_dar_WF; assumption|intros; apply set_dar_Rep; assumption|intros; apply set_dar_size|assumption]
+                 | apply (ST _ _ (fun h0 => set_dlang_m h0 dst _)); [intros; apply set_dlang_WF; assumption|intros; apply set_dlang_Rep; assumption|intros; apply set_dlang_size|assumption]
+                 | apply (ST _ _ (fun h0 => set_px_m h0 dst _)); [intros; apply set_px_WF; assumption|intros; apply set_px_Rep; assumption|intros; apply set_px_size|assumption] ].
+    - intros h1 P1. generalize (d_initials (dc h1 d)) as l. intro l. revert h1 P1.
+      induction l as [|[p v] t IH]; intros h1 P1; [exact P1|].
+      apply Invn_bind; [|intros h2 P2; apply IH; exact P2].
+      apply (ST _ _ (fun h0 => put_initial h0 dst (PValid p) (Some v)));
+        [intros hh WW MM; apply put_initial_WF; [assumption|rewrite MM; assumption]|intros; apply put_initial_Rep; assumption|intros; apply put_initial_size|assumption]. }
+  destruct G as (A & B & _). split; assumption.
 Qed.
